@@ -110,8 +110,9 @@ type recWriter struct {
 }
 
 func (w recWriter) Write(p []byte) (int, error) {
-	s := string(p)
-	w.r.slow(strings.Contains(s, "✔") && strings.Contains(s, "✘") && strings.HasPrefix(strings.TrimSpace(s), "["))
+	head := string(p)
+	w.r.slow(strings.Contains(head, "✔") && strings.Contains(head, "✘") && strings.HasPrefix(strings.TrimSpace(head), "["))
+	s := string(p) // a slow terminal reads the caller's buffer when it gets to it, not when Write was entered
 	w.r.mu.Lock()
 	pr := PrintRec{Seq: w.r.sim.Step(), T: w.r.sim.Now(), Text: s}
 	if w.err {
